@@ -412,7 +412,8 @@ fn func_arg_to_native_expr(node: &FunctionArg) -> Result<Box<Expr>, QueryError> 
 }
 
 fn strip_quotes(ident: &str) -> String {
-    if ident.starts_with('`') || ident.starts_with('"') {
+    // An identifier that consists of a single quote character is not a quoted identifier
+    if ident.len() >= 2 && (ident.starts_with('`') || ident.starts_with('"')) {
         ident[1..ident.len() - 1].to_string()
     } else {
         ident.to_string()
